@@ -10,7 +10,8 @@ META = {
             "builder accepts iff the positional/cyclic specification predicate `legal` holds, accepted points "
             "come back unchanged, empty contours are dropped. The model is tied to the code on every run by "
             "running Glyph::parse_raw and the model (vm_compute) on every sequence up to length 5 (quick) / 7 "
-            "(thorough) plus random long sequences, comparing verdict and error kind.",
+            "(thorough) plus random long sequences, comparing verdict and error kind; every sequence is rendered in canonical and permuted "
+            "attribute order, inside two-contour documents, and as a format 1 glif with named points (same verdict, same points).",
     "note": "Trusted: Coq kernel + VM; the hand-written model of src/glyph/builder.rs (tied by the exhaustive "
             "differential run, not by proof); the harness's glif rendering of a sequence; quick-xml attribute parsing.",
 }
@@ -22,7 +23,8 @@ ASSUMPTIONS = ["point type / smooth attribute parsing by quick-xml and norad's a
 NAMES = ["move", "line", "offcurve", "curve", "qcurve"]
 ERR = {"0": "accepted", "1": "UnexpectedMove", "2": "UnexpectedPointAfterOffCurve", "3": "UnexpectedSmooth",
        "4": "TooManyOffCurves", "5": "TrailingOffCurves", "6": "unreachable!() arm", "7": "accepted-but-changed",
-       "8": "other error", "9": "panic", "A": "verdict depends on XML attribute order", "?": "missing"}
+       "8": "other error", "9": "panic", "A": "verdict depends on XML attribute order",
+       "B": "verdict or returned points differ when the contour stands in a format 1 glif with named points", "?": "missing"}
 
 
 def pretty(digits):
@@ -131,11 +133,11 @@ def run(ctx, known, built):
     for n in range(maxlen + 1):
         exp = open(os.path.join(out, "exh_%d.txt" % n)).read()
         for idx, c in enumerate(exp):
-            if c in "79A":
+            if c in "79AB":
                 s = nth_seq(idx, n)
                 ctx.violations.append({"sequence": s, "points": pretty(s), "implementation": ERR[c]})
     for idx, c in enumerate(rexp):
-        if c in "79A":
+        if c in "79AB":
             ctx.violations.append({"sequence": cases[idx], "points": pretty(cases[idx]), "implementation": ERR[c],
                                    "document": context_of(idx) or "single contour"})
     # de-duplicate violations by sequence, shortest first
